@@ -51,6 +51,14 @@ macro "grow" : tactic => `(tactic| (
 /-- unfold a command, remove its local definitions, split every branch, close each by the primitive lemmas -/
 macro "grows_by " f:ident : tactic => `(tactic| (
   unfold $f
+  try unfold branchCreate
+  try unfold branchRename
+  try unfold branchDelete
+  try unfold switchTo
+  try unfold switchCreate
+  try unfold updateRefTo
+  try unfold resetTo
+  try unfold commitWrite
   try dsimp only
   repeat' split
   all_goals first | exact Grows.refl _ | grow))
